@@ -360,6 +360,8 @@ def run(chk):
     chk.trust("z3 5.1.0")
     logger_gate(chk)
     derived_loggers(chk)
+    from . import state_contracts as _S
+    _S.merge_all_pages(chk, "C17")          # 'however the history is paginated': every page is merged before the first replay decision can be taken
     from . import misc_contracts
     misc_contracts.logger_methods(chk, "C17")
     under_completed_contract(chk)
